@@ -231,8 +231,8 @@ def run_cfg(ctx, p, cfg):
             if b["term"]["k"] == "switch" and b["id"] in g.reachable_blocks():
                 si = SwitchInfo(g, b["id"])
                 nf = cmp_nf(si.discr, True)
-                if nf and nf[0] == "Eq":
-                    t = si.target_of(True)
+                if nf and nf[0] in ("Eq", "Ne"):
+                    t = si.target_of(nf[0] == "Eq")
                     r.require(sc.block not in g.reach(t, include_src=True), "equal-edge-leaves-logger-alone:bb%d" % 0 if False else "equal-edge-leaves-logger-alone:%s" % ("mtime" if any(x[0] == "call" and "metadata" in x[1] for x in walk(si.discr)) else "text"), fn=g,
                               detail="from the `==` edge of %s set_config is unreachable" % show(si.discr, 4))
         # the mtime shortcut must be an exact equality: timestamps can move backwards (restored backup, clock step)
@@ -243,7 +243,7 @@ def run_cfg(ctx, p, cfg):
                 nf = cmp_nf(si.discr, True)
                 if nf and any(x[0] == "call" and x[1] == "std::fs::Metadata::modified" or (x[0] == "closure") for y in nf[1:] for x in walk(y)) and any(x[0] == "field" and x[2] == "modified" for y in nf[1:] for x in walk(y)):
                     mt.append((nf[0], si))
-        r.require(len(mt) == 1 and mt[0][0] == "Eq", "mtime-shortcut-is-exact-equality", fn=g, detail="stored mtime vs file mtime compared with: %s" % [m[0] for m in mt],
+        r.require(len(mt) == 1 and mt[0][0] in ("Eq", "Ne"), "mtime-shortcut-is-exact-equality", fn=g, detail="stored mtime vs file mtime compared with: %s" % [m[0] for m in mt],
                   fail_detail="the unchanged-file shortcut compares modification times with %s instead of ==: a changed file whose mtime did not increase (restored backup, clock step) is never applied" % [m[0] for m in mt])
         # parse error keeps last good config: Break edge of parse cannot reach set_config
         for b in g.blocks:
